@@ -416,7 +416,8 @@ def check_property(pid, a, seed, timeout_ms, t0):
     if any(t == "float-as-real" for t in trusted):
         assumptions.append("float-as-real: machine floats treated as mathematical reals in the obligations that touch them")
     for t in sorted(trusted):
-        if t.startswith("assumes:"):
+        if t.startswith(("assumes:", "assumed contract", "event view:", "abstract method:", "ghost trace:", "module variable",
+                         "quantified definition")):
             assumptions.append(t)
     assumptions.extend(propdef.get("assumptions", []))
     if driver:
